@@ -175,6 +175,7 @@ def run_unit(unit_path, kf_on=True, vacuity=False, extra_args=(), timeout=900, k
         note = 'functions not processable and left undecided: %s (%s)' % (', '.join(names), ' ; '.join(why)[:400])
         if res.status == 'ok':
             res.status = 'undecided'
+            res.only_isolated = True
             res.reason = note + '; every other obligation of the unit holds'
         else:
             res.reason = (res.reason + ' ; ' if res.reason else '') + note
